@@ -502,3 +502,48 @@ V("c16-eq-text-explicit-wrappers", ["C16", "C03", "C04", "C20"], "E", DTY, '    
   '        base = StringEncoded(FixedSized(n_bytes, NullStripped(GreedyBytes)), "ascii")\n        super().__init__(base)\n\n    def _decode(self, obj, context, path):\n        return obj.strip()',
   more=[(DTY, "from construct import PaddedString as PaddedString_", "from construct import FixedSized, GreedyBytes, NullStripped, StringEncoded\nfrom construct import PaddedString as PaddedString_")])
 V("c18-eq-guard-in-helper", ["C18", "C03"], "E", SIO, "    n_elements = len(content) // element_size\n    if n_elements * element_size != len(content):", "    n_elements, rest = divmod(len(content), element_size)\n    if rest != 0:")
+
+# ---------------------------------------------------------------- round-6 rules
+FR5 = "ceos_alos2/sar_leader/facility_related_data.py"
+V("c09-adjacent-first", "C09", "M", CAC, '''    if local.is_file():
+        return decode(local.read_text(), records_per_chunk=records_per_chunk)
+
+    if remote in mapper:
+        return decode(mapper[remote].decode(), records_per_chunk=records_per_chunk)
+''', '''    if remote in mapper:
+        return decode(mapper[remote].decode(), records_per_chunk=records_per_chunk)
+
+    if local.is_file():
+        return decode(local.read_text(), records_per_chunk=records_per_chunk)
+''', "C09-X6")
+V("c09-empty-index-accepted", "C09", "M", CAC, "json.loads(cache, object_hook=postprocess)", 'json.loads(cache or "{}", object_hook=postprocess)', "C09-X7")
+V("c09-eq-lookup-elif", ["C09", "C07"], "E", CAC, '''    if local.is_file():
+        return decode(local.read_text(), records_per_chunk=records_per_chunk)
+
+    if remote in mapper:
+        return decode(mapper[remote].decode(), records_per_chunk=records_per_chunk)
+
+    raise CachingError(f"no cache found for {path}")''', '''    if local.is_file():
+        text = local.read_text()
+    elif remote in mapper:
+        text = mapper[remote].decode()
+    else:
+        raise CachingError(f"no cache found for {path}")
+
+    return decode(text, records_per_chunk=records_per_chunk)''')
+V("c15-unicode-digits", "C15", "M", DCD, "    -(?P<date>[0-9]{6})", "    -(?P<date>\\d{6})", "non-ASCII")
+V("c13-falsy-attrs-dropped", "C13", "M", IOO, "attrs=volume_directory.attrs | attrs)", "attrs={k: v for k, v in volume_directory.attrs.items() if v} | attrs)", "root attrs")
+V("c18-tail-seek", "C18", "M", FR5, '    "blanks" / PaddedString(1896),', '    "blanks" / Seek(1896, 1),', "Seek",
+  more=[(FR5, "from construct import ", "from construct import Seek, ")])
+V("c19-mappingproxy", "C19", "M", ARR, "        self.chunk_offsets = compute_chunk_offsets(self.byte_ranges, self.records_per_chunk)", "        self.chunk_offsets = MappingProxyType(compute_chunk_offsets(self.byte_ranges, self.records_per_chunk))", "pickle",
+  more=[(ARR, "from dataclasses import dataclass, field\n", "from dataclasses import dataclass, field\nfrom types import MappingProxyType\n")])
+V("c19-dummy-lock-small", "C19", "M", XRP, "        lock = SerializableLock()", "        lock = SerializableLock() if len(var.data.chunk_offsets) > 1 else DummyLock()", "C19-T6",
+  more=[(XRP, "from xarray.backends.locks import SerializableLock", "from xarray.backends.locks import DummyLock, SerializableLock")])
+V("c14-day-unpadded", "C14", "M", SUM, 'lambda d: d.isoformat().split("T")[0]', 'lambda d: f"{d.year:04d}-{d.month:02d}-{d.day}"', "C14-S11")
+V("c07-eq-suppress", ["C07", "C09", "C10", "C11", "C18"], "E", SII, '''        try:
+            return caching.read_cache(mapper, path, records_per_chunk=records_per_chunk)
+        except CachingError:
+            pass
+''', '''        with contextlib.suppress(CachingError):
+            return caching.read_cache(mapper, path, records_per_chunk=records_per_chunk)
+''', more=[(SII, "from ceos_alos2.array import Array", "import contextlib\n\nfrom ceos_alos2.array import Array")])
